@@ -15,6 +15,7 @@ def is_write(n):
 
 
 def seq(prog, fn, pred=is_write):
+    common.use_lets(fn)
     return ioseq.skeleton(fn.body, pred)
 
 
